@@ -25,6 +25,10 @@ pub struct PlaceCase {
     /// C20 only: also push through the binary with this many threads
     #[serde(default)]
     pub cli_threads: Option<usize>,
+    /// C20 CLI only: this many additional one-line patches behind the generated one (more than the default
+    /// number of patches that get quilt backups)
+    #[serde(default)]
+    pub long_series: usize,
 }
 
 impl PlaceCase {
@@ -192,7 +196,7 @@ pub fn gen_place_case(ch: &mut Chooser, o: &GenOpts) -> PlaceCase {
     let hunks = gen_hunks_for(ch, &file, k, o.max_hunks);
     let hunks = if reverse { hunks.iter().map(|h| h.reversed()).collect() } else { hunks };
     let fuzz2 = fuzz + 1 + ch.below(3);
-    PlaceCase { file, hunks, reverse, fuzz, fuzz2, cli_threads: None }
+    PlaceCase { file, hunks, reverse, fuzz, fuzz2, cli_threads: None, long_series: 0 }
 }
 
 /// A long file of unique lines in which the hunk matches exactly at one place far from where its header
@@ -257,7 +261,7 @@ pub fn gen_far_case(ch: &mut Chooser) -> PlaceCase {
         (file, vec![h])
     };
     let fuzz = ch.below(level);
-    PlaceCase { file, hunks, reverse, fuzz, fuzz2: fuzz + 1 + ch.below(3), cli_threads: None }
+    PlaceCase { file, hunks, reverse, fuzz, fuzz2: fuzz + 1 + ch.below(3), cli_threads: None, long_series: 0 }
 }
 
 pub fn run_place(case: &PlaceCase, fuzz: usize, rollback: bool) -> Result<inproc::HistoryOut, Verdict> {
@@ -357,6 +361,7 @@ fn sweep_c02(env: &Env, sink: &mut dyn FnMut(PlaceCase) -> bool) -> (u64, bool) 
                                             fuzz,
                                             fuzz2: fuzz + 1,
                                             cli_threads: None,
+                                            long_series: 0,
                                         };
                                         if !sink(case) {
                                             return (count, false);
@@ -755,6 +760,12 @@ impl Prop for C20 {
         }
         if ch.chance(1, 16) {
             c.cli_threads = Some(*ch.pick(&[1usize, 2, 4]));
+            if ch.chance(1, 10) {
+                c.long_series = ch.range(101, 106);
+                c.fuzz = 0;
+                c.fuzz2 = ch.range(1, 3);
+                return c;
+            }
         }
         // "every limit F' > F": also very large ones (in-process only values whose misuse as a size
         // panics instead of exhausting memory)
@@ -807,9 +818,15 @@ impl Prop for C20 {
                 let mut tree = ws::Tree::default();
                 tree.files.insert("f".into(), ws::TFile { data: B(join_lines(&case.file)), mode: 0o644 });
                 tree.files.insert("g".into(), ws::TFile { data: B::new("x\n"), mode: 0o644 });
-                let series = format!("p.patch -p1{}\nq.patch\n", if case.reverse { " -R" } else { "" });
+                let mut series = format!("p.patch -p1{}\nq.patch\n", if case.reverse { " -R" } else { "" });
                 let q: &[u8] = b"--- a/g\n+++ b/g\n@@ -1 +1 @@\n-x\n+y\n";
-                let spec = ws::WsSpec { tree, patches: vec![("p.patch".into(), B(case.patch_text())), ("q.patch".into(), B::new(q))], series: B::new(series), applied: None, dirs: vec![], symlinks: vec![] };
+                let mut patches = vec![("p.patch".to_string(), B(case.patch_text())), ("q.patch".to_string(), B::new(q))];
+                for k in 0..case.long_series {
+                    patches.push((format!("n{:03}.patch", k), B(format!("--- /dev/null\n+++ b/new/n{:03}\n@@ -0,0 +1 @@\n+x\n", k).into_bytes())));
+                    series.push_str(&format!("n{:03}.patch\n", k));
+                }
+                cx.label_if(case.long_series > 0, "cli-series-longer-than-the-default-backup-count");
+                let spec = ws::WsSpec { tree, patches, series: B::new(series), applied: None, dirs: vec![], symlinks: vec![] };
                 let root = cx.env.fresh_dir("c20-");
                 spec.materialise(&root);
                 let mut args = ws::base_args(threads);
